@@ -148,9 +148,13 @@ def isEndOfStream(substrate):
         yield result
 
     else:
-        received = substrate.read(1)
-        if received is None:
-            yield
+        while True:
+            received = substrate.read(1)
+            if received is None:
+                yield error.SubstrateUnderrunError()
+                continue
+
+            break
 
         if received:
             substrate.seek(-1, os.SEEK_CUR)
